@@ -11,7 +11,9 @@ class TLCError(Exception):
 
 
 def _java(extra_props=(), heap="4g"):
-    return ["java", "-XX:+UseParallelGC", "-Xss64m", f"-Xmx{heap}", f"-DTLA-Library={LIB}"] + list(extra_props) + ["-cp", JAR]
+    tmp = os.path.join(scratch(), "jtmp")          # SANY unpacks its standard modules into java.io.tmpdir and leaves them behind
+    os.makedirs(tmp, exist_ok=True)
+    return ["java", "-XX:+UseParallelGC", "-Xss64m", f"-Xmx{heap}", f"-Djava.io.tmpdir={tmp}", f"-DTLA-Library={LIB}"] + list(extra_props) + ["-cp", JAR]
 
 
 def sany(path):
